@@ -262,6 +262,10 @@ impl<'tcx> Cx<'tcx> {
         fields.push(("val", val.unwrap_or_else(|| "null".into())));
         match c {
             Const::Unevaluated(u, _) => {
+                if u.def.is_local() && u.promoted.is_none() && self.tcx.impl_of_assoc(u.def).is_some() {
+                    // module-independent text for associated consts of local impls
+                    fields[2] = ("text", esc(&self.path_with(u.def, Some(u.args))));
+                }
                 fields.push(("def", esc(&self.path(u.def))));
                 fields.push((
                     "def_args",
